@@ -428,3 +428,95 @@ Proof.
    destruct n as [i ch]; destruct i; unfold Bn, bval in *; cbn in *; intro D; congruence).
 Qed.
 End handlers.
+
+(* ================================================================== add_text_to_container *)
+Section text.
+Variables (o : bopts) (line : bytes).
+Hypothesis HLine : LK line.
+Hypothesis HLf : lf_terminated line.
+Hint Resolve clear_llb_up_bi finalize_up_to_bi : bi.
+
+Lemma sub_eq site a b c : sub site a b = Ok c -> c = a - b.
+Proof. unfold sub. destruct (Nat.ltb a b); intro H; inversion H; reflexivity. Qed.
+
+(* advance to first_nonspace, then add_line: on the line or on a prefix of it *)
+Lemma fresh_add_bi s l1 count s5 id s6 site :
+  FF (ps_cur s) line -> PCT line (ps_cur s) -> blank s = false ->
+  (exists k, l1 = firstn k line) -> LK l1 ->
+  sub site (fns s) (offset s) = Ok count -> fns s <= List.length l1 ->
+  adv s l1 count false = Ok s5 -> add_line s5 id l1 = Ok s6 -> BI s -> BI s6.
+Proof.
+  intros F P Bk [k ->] L1 S Lf A Al B. apply sub_eq in S. unfold fns, offset, blank in *.
+  destruct (adv_to_fns line s _ count s5 F P Lf S A) as [O Pf].
+  eapply add_line_bi_rdy; [exact L1 | | exact Al | eapply adv_bi; eassumption].
+  eapply RDY_at_fns; eassumption.
+Qed.
+
+Lemma line_prefix : exists k, line = firstn k line.
+Proof. exists (List.length line). now rewrite firstn_all. Qed.
+
+Lemma add_text_to_container_bi st c lm st' :
+  CI (ps_cur st) line -> PCT line (ps_cur st) -> add_text_to_container o st c lm line = Ok st' -> BI st -> BI st'.
+Proof.
+  unfold add_text_to_container. intros CIc Pc H P.
+  destruct (ffn st line) as [s0| |] eqn:E0; cbn [bind] in H; try discriminate H. assert (P0 : BI s0) by eauto with bi.
+  assert (K0 : FF (ps_cur s0) line /\ PCT line (ps_cur s0)).
+  { unfold ffn in E0. destruct (find_first_nonspace (ps_cur st) line) as [c'| |] eqn:Ef; cbn [bind] in E0; try discriminate E0.
+    inversion E0; subst s0. cbn [ps_cur st_cur]. destruct (ffn_FF _ _ _ CIc Ef) as (F & Eo & Ep). split; [exact F|].
+    unfold PCT in *. rewrite Eo, Ep. exact Pc. }
+  destruct K0 as [F0 Pc0].
+  destruct (get s0 c) as [cn| |] eqn:G0; cbn [bind] in H; try discriminate H.
+  match type of H with bind ?r _ = _ => destruct r as [s1| |] eqn:E1; cbn [bind] in H; try discriminate H end.
+  assert (P1 : BI s1) by (mon E1; eauto with bi).
+  assert (K1 : KC (ps_cur s0) (ps_curline_len s0) s1) by (mon E1; try apply KC_self; eapply modify_info_KC; [eassumption | apply KC_self]).
+  match type of H with bind ?r _ = _ => destruct r as [s2| |] eqn:E2; cbn [bind] in H; try discriminate H end.
+  assert (P2 : BI s2) by eauto with bi.
+  assert (K2 : KC (ps_cur s0) (ps_curline_len s0) s2) by (eapply modify_info_KC; eassumption).
+  match type of H with bind ?r _ = _ => destruct r as [s3| |] eqn:E3; cbn [bind] in H; try discriminate H end.
+  assert (P3 : BI s3) by eauto with bi.
+  assert (K3 : KC (ps_cur s0) (ps_curline_len s0) s3) by (eapply clear_llb_up_KC; eassumption).
+  match type of H with bind ?r _ = _ => destruct r as [lz| |] eqn:E4; cbn [bind] in H; try discriminate H end.
+  destruct lz.
+  { (* lazy continuation *)
+    match type of E4 with (if ?cond then _ else _) = _ => destruct cond eqn:Cd; [|discriminate E4] end.
+    apply andb_true_iff in Cd as [Cd _]. apply andb_true_iff in Cd as [_ Bk]. apply negb_true_iff in Bk.
+    eapply add_line_bi_rdy; [exact HLine | | exact H | exact P3].
+    unfold blank in Bk. rewrite (proj1 K3) in *. now apply RDY_lazy. }
+  match type of H with bind ?r _ = _ => destruct r as [s4| |] eqn:E5; cbn [bind] in H; try discriminate H end.
+  assert (P4 : BI s4) by eauto with bi.
+  assert (K4 : KC (ps_cur s0) (ps_curline_len s0) s4) by (eapply finalize_up_to_KC; eassumption).
+  assert (F4 : FF (ps_cur s4) line) by (rewrite (proj1 K4); exact F0).
+  assert (Pc4 : PCT line (ps_cur s4)) by (rewrite (proj1 K4); exact Pc0).
+  destruct (get s4 c) as [c4| |] eqn:G4; cbn [bind] in H; try discriminate H.
+  match type of H with bind ?r _ = _ => destruct r as [[rc rs]| |] eqn:E6; cbn [bind fst snd] in H; try discriminate H end.
+  inversion H; subst. apply BI_st_current. clear H E1 E2 E3 E4 E5.
+  destruct (bval c4) eqn:Bv; mon E6; repeat match goal with p : (_ * _)%type |- _ => destruct p end; cbn [fst snd] in *;
+  try match goal with E2 : (if negb ?b then chop_trailing_hashtags line else Ok line) = Ok _ |- _ => destruct (negb b) eqn:? end;
+  repeat match goal with E2 : Ok line = Ok ?x |- _ => assert (x = line) by (inversion E2; reflexivity); subst x; clear E2 end;
+  repeat match goal with E2 : Ok _ = Ok _ |- _ => inversion E2; subst; clear E2 end;
+  first
+    [ exact P4
+    | match goal with A : add_line s4 _ line = Ok ?s |- BI ?s =>
+        eapply add_line_bi_nonleaf; [exact G4 | rewrite Bv; reflexivity | exact A | exact P4] end
+    | match goal with U : unwrap_parent _ (finalize o ?s1 _) = Ok (_, ?s), A : add_line s4 _ line = Ok ?s1 |- BI ?s =>
+        eapply unwrap_parent_fin_bi; [exact U|]; eapply add_line_bi_nonleaf; [exact G4 | rewrite Bv; reflexivity | exact A | exact P4] end
+    | match goal with Ch : chop_trailing_hashtags line = Ok ?l1, S : sub _ (fns s4) (offset s4) = Ok ?count,
+                      A : adv s4 ?l1 ?count false = Ok ?s5, L : add_line ?s5 _ ?l1 = Ok ?s6, Eb : blank s4 = false,
+                      Le : Nat.leb (fns s4) (List.length ?l1) = true |- BI ?s6 =>
+        eapply (fresh_add_bi s4 l1); [exact F4 | exact Pc4 | exact Eb | exact (chop_prefix _ _ Ch) | exact (chop_LK _ _ Ch HLine)
+                                     | exact S | now apply Nat.leb_le | exact A | exact L | exact P4] end
+    | match goal with S : sub _ (fns s4) (offset s4) = Ok ?count,
+                      A : adv s4 line ?count false = Ok ?s5, L : add_line ?s5 _ line = Ok ?s6, Eb : blank s4 = false,
+                      Le : Nat.leb (fns s4) (List.length line) = true |- BI ?s6 =>
+        eapply (fresh_add_bi s4 line); [exact F4 | exact Pc4 | exact Eb | exact line_prefix | exact HLine
+                                       | exact S | now apply Nat.leb_le | exact A | exact L | exact P4] end
+    | match goal with AC : add_child o s4 _ Paragraph _ = Ok (?p, ?st1), S : sub _ (fns ?st1) (offset ?st1) = Ok ?count,
+                      A : adv ?st1 line ?count false = Ok ?st2, L : add_line ?st2 ?p line = Ok ?st3, Eb : blank s4 = false |- BI ?st3 =>
+        let K := fresh "K" in
+        pose proof (add_child_KC _ _ _ _ _ _ _ _ _ AC (KC_self s4)) as K;
+        eapply (fresh_add_bi st1 line);
+          [ rewrite (proj1 K); exact F4 | rewrite (proj1 K); exact Pc4 | unfold blank in *; rewrite (proj1 K); exact Eb
+          | exact line_prefix | exact HLine | exact S
+          | unfold fns; rewrite (proj1 K); exact (proj1 (proj2 F4)) | exact A | exact L | eapply add_child_bi; eassumption ] end ].
+Qed.
+End text.
